@@ -39,6 +39,9 @@ class AbsoluteSequence(AbstractSequence):
         relative_sequence = RelativeSequence()
         current_point_in_time = 0
 
+        # Messages may have been re-timed out of order; keep the order of simultaneous messages (stable sort)
+        self._messages.sort(key=lambda x: x.time)
+
         for msg in self._messages:
             time = msg.time
             # Check if we have to add wait messages
